@@ -1,13 +1,20 @@
 import FimVerif.Proofs.Lemmas.C12Codec
 import FimVerif.Proofs.Lemmas.C12Add
 import FimVerif.Proofs.Lemmas.C12Pools
+import FimVerif.Proofs.Lemmas.C12Details
+import FimVerif.Proofs.Lemmas.C12Hist
 /-!
 # C12 — delegations and pools survive encoding and regrouping unchanged
 
 Model: `FimVerif/Model/Deleg.lean` (hand mirror of `fim/slivers/delegations.py`, checked differentially),
-key constants: `FimVerif/Generated/DelegConsts.lean` (regenerated every run).  Details (`Labels` /
-`Capacities`) are abstract (`DetailOps D`); their own codec round trip (C03) is the explicit hypothesis
-`DetOk`, discharged for the concrete `Det` instance in the examples.
+key constants: `FimVerif/Generated/DelegConsts.lean` (regenerated every run).
+
+The theorems come in two layers.  The generic layer is stated for abstract details (`DetailOps D`) with the
+details' own round trip `DetOk` (`Cls(**x.to_dict()) == x`) as an explicit hypothesis.  The `_real` layer
+instantiates it with the C03 model of `Capacities` / `Labels` on the class specifications regenerated from
+`capacities_labels.py` (`Model/DelegDet.lean`, what the driver executes) and discharges `DetOk` from C03's
+losslessness theorems (`Lemmas/C12Details.lean`): no codec hypothesis is left.  What remains abstract there is
+`valid`, the label value validators (C16), and JSON *text* (`json.dumps` / `json.loads` are the identity on values).
 -/
 set_option linter.unusedSimpArgs false
 namespace FimVerif.C12
@@ -17,20 +24,45 @@ variable {D : Type}
 
 /-! ## Codec
 
-Full statement (what the property asks):
+The name `singlePoolName` (`"_"`) marks a single-resource delegation in the text.  A pool definition carrying it used
+to decode as a single-resource delegation (former known finding `C12:codec:definition-of-pool-named-single-sentinel`);
+since /repo ac819ce `Delegation(...)`, `Pool(...)` and `add_pool` refuse it (`reserved_name_rejected`), so the clause
+"a pool name is not `singlePoolName`" of `WFDeleg` excludes nothing that can be constructed (`constructed_pool_name`)
+and `delegations_roundtrip` is the full statement. -/
 
-    theorem delegations_roundtrip (h : WF' ops ds) : (encode ops ds).bind (decode ops ds.ty) = .ok ds
+/-- the reserved name cannot be given to a pool: not through a pool definition / reference `Delegation(...)`, not through
+`Pool(...)`, not through `add_pool`, and `incorporate_delegation` cannot create such a pool either -/
+theorem reserved_name_rejected (ty : DType) (id : String) (fmt : Fmt) (hf : fmt ≠ .single) (deleg on_ : Option String)
+    (for_ : List String) (ps : Pools D) (p : Pool D) (hp : p.pid = singlePoolName) :
+    (mkDelegation ty id fmt (some singlePoolName) : Except Err (Delegation D)) = .error .delegation ∧
+    (newPool ty singlePoolName deleg on_ for_ : Except Err (Pool D)) = .error .pool ∧
+    addPool ps p = .error .pool ∧
+    ((∀ q ∈ ps.byId, q.pid ≠ singlePoolName) → poolFor ty ps.byId singlePoolName = .error .pool) := by
+  refine ⟨by simp [mkDelegation, hf], by simp [newPool], ?_, poolFor_reserved ty ps.byId⟩
+  unfold addPool; split <;> simp [hp]
 
-where `WF'` is `WF` without the clause "a defined pool is not named `singlePoolName`".  The unchanged
-code violates it (known finding `C12:codec:definition-of-pool-named-single-sentinel`): see
-`delegations_roundtrip_counterexample`.  `delegations_roundtrip_partial` is the statement with that
-clause (`WFDeleg`, definition case). -/
+/-- what `Delegation(...)` returns has the pool name of the property's well-formed classes: none is needed for a
+single-resource delegation, a definition / reference has one and it is not the reserved name -/
+theorem constructed_pool_name (ty : DType) (id : String) (fmt : Fmt) (pool : Option String) (d : Delegation D)
+    (h : mkDelegation ty id fmt pool = .ok d) :
+    d.fmt = fmt ∧ d.pool = pool ∧ d.ty = ty ∧ d.id = id ∧ d.details = none ∧
+      (fmt ≠ .single → match pool with | none => False | some p => p ≠ singlePoolName) := by
+  unfold mkDelegation at h
+  split at h
+  · cases h
+  · split at h
+    · cases h
+    · rename_i h1 h2
+      injection h with h; subst h
+      refine ⟨rfl, rfl, rfl, rfl, rfl, fun hf => ?_⟩
+      cases pool with
+      | none => exact h1 ⟨hf, rfl⟩
+      | some p => exact fun hp => h2 ⟨hf, by rw [hp]⟩
 
-/-- every well-formed delegation set (single ⇒ non-empty details, no pool; definition ⇒ pool name other
-than the reserved `"_"`, non-empty details; reference ⇒ pool name, no details; distinct ids; details that
-survive their own codec) decodes from its encoding to exactly itself: same ids in the same order, same
-formats, pool names, details and type -/
-theorem delegations_roundtrip_partial (ops : DetailOps D) (ds : Delegations D) (h : WF ops ds) :
+/-- **every well-formed delegation set** (single ⇒ non-empty details, no pool; definition ⇒ pool name, non-empty
+details; reference ⇒ pool name, no details; distinct ids; details that survive their own codec) decodes from its
+encoding to exactly itself: same ids in the same order, same formats, pool names, details and type -/
+theorem delegations_roundtrip (ops : DetailOps D) (ds : Delegations D) (h : WF ops ds) :
     (encode ops ds).bind (decode ops ds.ty) = .ok ds := by
   rw [encode_wf ops ds h]
   simp only [Except.bind, decode]
@@ -52,7 +84,7 @@ def dsEx : Delegations Det :=
       { ty := .cap, id := "del2", fmt := .definition, pool := some "pool1", details := some capEx },
       { ty := .cap, id := "del3", fmt := .reference, pool := some "pool1", details := none }] }
 
-/-- non-vacuity of `delegations_roundtrip_partial` -/
+/-- non-vacuity of `delegations_roundtrip` -/
 example : WF detOps dsEx := by
   have hc := det_roundtrip.1
   refine ⟨?_, by decide⟩
@@ -61,16 +93,41 @@ example : WF detOps dsEx := by
   rcases hd with rfl | rfl | rfl
   · exact ⟨rfl, rfl, hc⟩
   · exact ⟨rfl, by decide, hc⟩
-  · exact ⟨rfl, by simp, rfl⟩
+  · exact ⟨rfl, by decide, rfl⟩
 
-/-- a definition of a pool named `"_"` comes back as a single-resource delegation (replayed on the
-implementation by corpus/C12/pool_named_underscore.json) -/
-theorem delegations_roundtrip_counterexample :
-    let ds : Delegations Det := { ty := .cap, items := [
-      { ty := .cap, id := "del2", fmt := .definition, pool := some singlePoolName, details := some capEx }] }
-    (encode detOps ds).bind (decode detOps .cap) = .ok { ty := .cap, items := [
-      { ty := .cap, id := "del2", fmt := .single, pool := none, details := some capEx }] } := by
-  rfl
+/-- **over all histories of API calls**: start from `Delegations(atype=ty)`, make any number of `add_delegations(*args)` calls
+(accepted or rejected) with `Delegation` objects built by `Delegation(...)` and any number of `set_details` calls.  The
+type, duplicate-id, kind-of-details, reference-without-details and pool-name clauses of `WF` then hold by construction
+(`reachable_inv`, `built_inv`); what is left is the property's own restriction `Complete` (details were set on every
+single-resource delegation and definition, are not empty and survive their codec; a single-resource delegation was given
+no pool name).  Assumption: a `Delegation` is not mutated after it was handed to `add_delegations` (the container aliases it). -/
+theorem delegations_roundtrip_api (ops : DetailOps D) (ty : DType) (ds : Delegations D) (hr : Reachable ty ds)
+    (hb : ∀ d ∈ ds.items, Built ops d) (hc : Complete ops ds) :
+    (encode ops ds).bind (decode ops ty) = .ok ds := by
+  have h := delegations_roundtrip ops ds (wf_of_api ops ty ds hr hb hc)
+  rw [(reachable_inv ty ds hr).1] at h
+  exact h
+
+/-- non-vacuity: the three-entry set of `delegation_label_test`, built as the test builds it -/
+example : Reachable .cap dsEx ∧ (∀ d ∈ dsEx.items, Built detOps d) ∧ Complete detOps dsEx := by
+  refine ⟨Reachable.call _ dsEx.items Reachable.new, ?_, ?_⟩
+  · intro d hd
+    simp only [dsEx, List.mem_cons, List.not_mem_nil, or_false] at hd
+    rcases hd with rfl | rfl | rfl
+    · exact Built.set _ _ capEx (Built.ctor .cap "del1" .single none _ rfl) rfl
+    · exact Built.set _ _ capEx (Built.ctor .cap "del2" .definition (some "pool1") _ rfl) rfl
+    · exact Built.ctor .cap "del3" .reference (some "pool1") _ rfl
+  · intro d hd
+    simp only [dsEx, List.mem_cons, List.not_mem_nil, or_false] at hd
+    rcases hd with rfl | rfl | rfl
+    · exact ⟨fun _ => ⟨capEx, rfl, (rfl : detOps.fromDict .cap _ = .ok capEx)⟩, fun _ => rfl⟩
+    · exact ⟨fun _ => ⟨capEx, rfl, (rfl : detOps.fromDict .cap _ = .ok capEx)⟩, fun h => by cases h⟩
+    · exact ⟨fun h => absurd rfl h, fun h => by cases h⟩
+
+/-- non-vacuity of `reserved_name_rejected` / the former counterexample (corpus/C12/pool_named_underscore.json): the
+definition of a pool named `"_"` cannot be built any more, and a text that holds a reference to it does not decode -/
+example : (mkDelegation .cap "del2" .definition (some singlePoolName) : Except Err (Delegation Det)) = .error .delegation ∧
+    decode detOps .cap (.obj [("a", .obj [(fieldPool, .str singlePoolName)])]) = .error .delegation := ⟨rfl, rfl⟩
 
 /-! ## Rejections -/
 
@@ -193,8 +250,8 @@ theorem rejects_details_on_reference (ops : DetailOps D) (d : Delegation D) (x :
 /-- … nor from JSON: a text in which some entry is a reference (`pool` key, no `pool_id` key) that also
 carries a `capacities` or `labels` key never decodes (repaired in /repo ff92b65; before, the details were
 dropped silently) -/
-theorem decode_rejects_details_on_reference (ops : DetailOps D) (ty : DType) (kvs : List (String × JVal))
-    (k : String) (e : List (String × JVal)) (hk : (k, JVal.obj e) ∈ kvs)
+theorem decode_rejects_details_on_reference (ops : DetailOps D) (ty : DType) (kvs : List (String × Deleg.JVal))
+    (k : String) (e : List (String × Deleg.JVal)) (hk : (k, Deleg.JVal.obj e) ∈ kvs)
     (hnoid : lookup fieldPoolId e = none) (hpool : (lookup fieldPool e).isSome)
     (hdet : (lookup fieldCapacities e).isSome ∨ (lookup fieldLabels e).isSome) (r : Delegations D) :
     decode ops ty (.obj kvs) ≠ .ok r := by
@@ -279,23 +336,34 @@ theorem generate_rejects_clash (ops : DetailOps D) (ty : DType) (P : List (Pool 
   rw [generate_flat ops ty idx [] hk hok]
   exact (addAt_fold ty _ [] (rinv_nil ty) hty).2 hnd
 
-/-- reading back any per-node arrangement `R` of exactly the family's entries reconstructs the family -/
-theorem incorporate_entries (ops : DetailOps D) (ty : DType) (P : List (Pool D)) (R : NodeDelegs D)
-    (hF : Family ops ty P) (hinv : RInv ty R) (hperm : (flat R).Perm (allEntries ty P)) :
+/-- **reading back ANY arrangement of the family's entries reconstructs the family**: `R` is any sequence of
+`incorporate_delegation(node, Delegations)` calls - the nodes in any order, the entries of a node in any order and even
+spread over several calls, with any single-resource delegations in between (they are ignored) - whose definition /
+reference entries are, as a multiset, exactly one definition per pool on its defining node and one reference per pool on
+each node it applies to.  In particular a reference may be read before the definition of its pool, and several pools
+may share defining / reference nodes. -/
+theorem incorporate_with_singles (ops : DetailOps D) (ty : DType) (P : List (Pool D)) (R : NodeDelegs D)
+    (hF : Family ops ty P) (hN : NoClash P) (hty : ∀ e ∈ R, e.2.ty = ty)
+    (hperm : ((flat R).filter nonSingle).Perm (allEntries ty P)) :
     ∃ Q, incorporateAll (emptyPools ty) R = .ok Q ∧ Q.ty = ty ∧ SamePools P Q.byId := by
-  have hmem : ∀ e, e ∈ flat R ↔ e ∈ allEntries ty P := fun e => hperm.mem_iff
+  have hmem1 : ∀ e ∈ flat R, e.2.fmt ≠ .single → e ∈ allEntries ty P := fun e he hf =>
+    hperm.mem_iff.mp (List.mem_filter.mpr ⟨he, by simp [nonSingle, hf]⟩)
+  have hmem2 : ∀ e ∈ allEntries ty P, e ∈ flat R := fun e he => (List.mem_filter.mp (hperm.mem_iff.mpr he)).1
+  have hkeys : (((flat R).filter nonSingle).map keyOf).Nodup := by
+    apply (hperm.map keyOf).nodup_iff.mpr
+    rw [keys_allEntries]; exact hN
   have hinc : Incorporable ([] ++ flat R) := by
     rw [List.nil_append]
-    exact incorporable_of_family ops ty P (flat R) hF (fun e he => (hmem e).mp he) hinv.keys
+    exact incorporable_with_singles ops ty P (flat R) hF hmem1 hkeys
   obtain ⟨Q', hfold, hq⟩ := inc_fold ty (flat R) [] [] (qinv_nil ty) hinc
   rw [List.nil_append] at hq
   refine ⟨{ ty := ty, byId := Q', index := none }, ?_, rfl, ?_, ?_, hq.distinct⟩
   · unfold emptyPools
-    rw [incorporateAll_flat ty R [] none hinv.ty_, hfold]; rfl
+    rw [incorporateAll_flat ty R [] none hty, hfold]; rfl
   · intro p hp
     have hpok := hF.ok p hp
     have hdef : (p.on_.getD "", defEntry ty p) ∈ flat R :=
-      (hmem _).mpr ((mem_allEntries ty P _).mpr ⟨p, hp, Or.inl rfl⟩)
+      hmem2 _ ((mem_allEntries ty P _).mpr ⟨p, hp, Or.inl rfl⟩)
     obtain ⟨q, hqm, hqpid⟩ := hq.present _ hdef (by simp [defEntry]) p.pid rfl
     obtain ⟨hpi, hdw, hqty⟩ := hq.pool q hqm
     refine ⟨q, hqm, hqpid, by rw [hqty, hpok.ty_], ?_, ?_, ?_, ?_⟩
@@ -304,8 +372,8 @@ theorem incorporate_entries (ops : DetailOps D) (ty : DType) (P : List (Pool D))
       cases hon : p.on_ with
       | none => exact absurd hon hpok.on_
       | some n => rfl
-    · obtain ⟨s, hs, _, hsp, hsd⟩ := hdw
-      obtain ⟨p', hp', hpool, hid, _, _⟩ := entry_pool ty P s ((hmem s).mp hs)
+    · obtain ⟨s, hs, hsns, hsp, hsd⟩ := hdw
+      obtain ⟨p', hp', hpool, hid, _, _⟩ := entry_pool ty P s (hmem1 s hs hsns)
       have : p' = p := distinct_eq hF.distinct hp' hp (by
         rw [hpool] at hsp; rw [← hqpid]; exact Option.some.inj hsp)
       subst this
@@ -318,20 +386,38 @@ theorem incorporate_entries (ops : DetailOps D) (ty : DType) (P : List (Pool D))
       rw [hpi.refs n]
       constructor
       · rintro ⟨s, hs, hsn, hsf, hsp⟩
-        obtain ⟨p', hp', hpool, _, _, h | ⟨_, hfor, _⟩⟩ := entry_pool ty P s ((hmem s).mp hs)
+        obtain ⟨p', hp', hpool, _, _, h | ⟨_, hfor, _⟩⟩ := entry_pool ty P s (hmem1 s hs (by rw [hsf]; decide))
         · rw [h.1] at hsf; cases hsf
         · have : p' = p := distinct_eq hF.distinct hp' hp (by
             rw [hpool] at hsp; rw [← hqpid]; exact Option.some.inj hsp)
           subst this
           rw [← hsn]; exact hfor
       · intro hn
-        exact ⟨(n, refEntry ty p), (hmem _).mpr ((mem_allEntries ty P _).mpr ⟨p, hp, Or.inr ⟨n, hn, rfl⟩⟩),
+        exact ⟨(n, refEntry ty p), hmem2 _ ((mem_allEntries ty P _).mpr ⟨p, hp, Or.inr ⟨n, hn, rfl⟩⟩),
           rfl, rfl, by simp [refEntry, hqpid]⟩
   · intro q hqm
     obtain ⟨_, hdw, _⟩ := hq.pool q hqm
-    obtain ⟨s, hs, _, hsp, _⟩ := hdw
-    obtain ⟨p', hp', hpool, _⟩ := entry_pool ty P s ((hmem s).mp hs)
+    obtain ⟨s, hs, hsns, hsp, _⟩ := hdw
+    obtain ⟨p', hp', hpool, _⟩ := entry_pool ty P s (hmem1 s hs hsns)
     exact ⟨p', hp', by rw [hpool] at hsp; exact Option.some.inj hsp⟩
+
+/-- the same without single-resource delegations: the entries of `R` are exactly the family's -/
+theorem incorporate_any_arrangement (ops : DetailOps D) (ty : DType) (P : List (Pool D)) (R : NodeDelegs D)
+    (hF : Family ops ty P) (hN : NoClash P) (hty : ∀ e ∈ R, e.2.ty = ty) (hperm : (flat R).Perm (allEntries ty P)) :
+    ∃ Q, incorporateAll (emptyPools ty) R = .ok Q ∧ Q.ty = ty ∧ SamePools P Q.byId := by
+  apply incorporate_with_singles ops ty P R hF hN hty
+  have : (flat R).filter nonSingle = flat R :=
+    List.filter_eq_self.mpr (fun e he => nonSingle_allEntries ty P e (hperm.mem_iff.mp he))
+  rw [this]; exact hperm
+
+/-- reading back a per-node dictionary `R` (each node once) of exactly the family's entries reconstructs the family -/
+theorem incorporate_entries (ops : DetailOps D) (ty : DType) (P : List (Pool D)) (R : NodeDelegs D)
+    (hF : Family ops ty P) (hinv : RInv ty R) (hperm : (flat R).Perm (allEntries ty P)) :
+    ∃ Q, incorporateAll (emptyPools ty) R = .ok Q ∧ Q.ty = ty ∧ SamePools P Q.byId := by
+  have hN : NoClash P := by
+    have := (hperm.map keyOf).nodup_iff.mp hinv.keys
+    rw [keys_allEntries] at this; exact this
+  exact incorporate_any_arrangement ops ty P R hF hN hinv.ty_ hperm
 
 /-- **pools round trip**: for every family of valid pools with distinct ids in which no node needs two
 entries under one delegation id, turning the pools into per-node delegations and incorporating those, node
@@ -344,6 +430,18 @@ theorem pools_roundtrip (ops : DetailOps D) (ty : DType) (P : List (Pool D)) (hF
   obtain ⟨Q, hi, hty, hs⟩ := incorporate_entries ops ty P R hF hinv hperm
   exact ⟨ps, R, Q, hb, hg, hi, hty, hs⟩
 
+/-- **the pools clause at full strength**: `generate_delegations_by_node_id` yields per-node dictionaries `R` holding
+exactly one definition per pool on its defining node and one reference on each node it applies to (`RInv`: every node
+once, ids distinct inside a node; `flat R ~ allEntries`), and incorporating the nodes of `R` in ANY order (`R'.Perm R`)
+reconstructs the same pools: same defining node, reference set, delegation id and details (`SamePools`) -/
+theorem pools_roundtrip_any_order (ops : DetailOps D) (ty : DType) (P : List (Pool D)) (hF : Family ops ty P) (hN : NoClash P) :
+    ∃ ps R, buildPools ty P = .ok ps ∧ generate ops ps = .ok R ∧ RInv ty R ∧ (flat R).Perm (allEntries ty P) ∧
+      ∀ R', R'.Perm R → ∃ Q, incorporateAll (emptyPools ty) R' = .ok Q ∧ Q.ty = ty ∧ SamePools P Q.byId := by
+  obtain ⟨ps, R, hb, _, hg, hinv, hperm⟩ := generate_ok_of_noClash ops ty P hF hN
+  refine ⟨ps, R, hb, hg, hinv, hperm, fun R' hR' => ?_⟩
+  exact incorporate_any_arrangement ops ty P R' hF hN (fun e he => hinv.ty_ e (hR'.mem_iff.mp he))
+    ((flat_perm hR').trans hperm)
+
 /-- the two-pool family of `delegation_label_test.testPools`: node1 defines pool1 and references pool2, node2
 defines pool2 and references pool1, node3 references both - under two delegation ids -/
 def poolsEx : List (Pool Det) := [
@@ -354,10 +452,38 @@ theorem poolsEx_family : Family detOps .lab poolsEx := by
   refine ⟨?_, by unfold Distinct; decide⟩
   intro p hp
   simp only [poolsEx, List.mem_cons, List.not_mem_nil, or_false] at hp
-  rcases hp with rfl | rfl <;> exact ⟨rfl, by simp, by simp, by simp, rfl⟩
+  rcases hp with rfl | rfl <;> exact ⟨rfl, by decide, by simp, by simp, by simp, rfl⟩
 
-/-- non-vacuity of `generate_ok_of_noClash` / `pools_roundtrip` -/
+/-- non-vacuity of `generate_ok_of_noClash` / `pools_roundtrip` / `pools_roundtrip_any_order` -/
 example : Family detOps .lab poolsEx ∧ NoClash poolsEx := ⟨poolsEx_family, by decide⟩
+
+/-- three pools sharing nodes, two of them under one delegation id (cf. seeded C12-r3-3): `n1` defines `pa` and `pc`
+(under different ids), references `pb`; `n2` defines `pb`, references `pa`, `pc`; `n3` references all three -/
+def sharedEx : List (Pool Det) := [
+  { ty := .lab, pid := "pa", deleg := some "d1", on_ := some "n1", for_ := ["n2", "n3"], details := some labEx },
+  { ty := .lab, pid := "pb", deleg := some "d2", on_ := some "n2", for_ := ["n3", "n1"], details := some labEx },
+  { ty := .lab, pid := "pc", deleg := some "d3", on_ := some "n1", for_ := ["n3", "n2"], details := some labEx }]
+
+example : Family detOps .lab sharedEx ∧ NoClash sharedEx := by
+  refine ⟨⟨?_, by unfold Distinct; decide⟩, by decide⟩
+  intro p hp
+  simp only [sharedEx, List.mem_cons, List.not_mem_nil, or_false] at hp
+  rcases hp with rfl | rfl | rfl <;> exact ⟨rfl, by decide, by simp, by simp, by simp, rfl⟩
+
+/-- … read back with the reference-only node first, i.e. every reference before the definition of its pool, and the
+entries of `n1` spread over two `incorporate_delegation` calls: the same three pools (executed on the model) -/
+def refD (id pool : String) : Delegation Det := { ty := .lab, id := id, fmt := .reference, pool := some pool, details := none }
+def dfnD (id pool : String) : Delegation Det := { ty := .lab, id := id, fmt := .definition, pool := some pool, details := some labEx }
+example :
+    (incorporateAll (emptyPools .lab) [
+      ("n3", { ty := .lab, items := [refD "d3" "pc", refD "d1" "pa", refD "d2" "pb"] }),
+      ("n1", { ty := .lab, items := [refD "d2" "pb"] }),
+      ("n2", { ty := .lab, items := [refD "d3" "pc", dfnD "d2" "pb", refD "d1" "pa"] }),
+      ("n1", { ty := .lab, items := [dfnD "d3" "pc", dfnD "d1" "pa"] })]).map (·.byId)
+    = .ok [
+      { ty := .lab, pid := "pc", deleg := some "d3", on_ := some "n1", for_ := ["n3", "n2"], details := some labEx },
+      { ty := .lab, pid := "pa", deleg := some "d1", on_ := some "n1", for_ := ["n3", "n2"], details := some labEx },
+      { ty := .lab, pid := "pb", deleg := some "d2", on_ := some "n2", for_ := ["n3", "n1"], details := some labEx }] := rfl
 
 /-- the same two pools under ONE delegation id: node1 would need a definition and a reference under `del1` -/
 def clashEx : List (Pool Det) := poolsEx.map (fun p => { p with deleg := some "del1" })
@@ -367,18 +493,16 @@ example : Family detOps .lab clashEx ∧ ¬ NoClash clashEx := by
   refine ⟨⟨?_, by unfold Distinct; decide⟩, by decide⟩
   intro p hp
   simp only [clashEx, poolsEx, List.map_cons, List.map_nil, List.mem_cons, List.not_mem_nil, or_false] at hp
-  rcases hp with rfl | rfl <;> exact ⟨rfl, by simp, by simp, by simp, rfl⟩
+  rcases hp with rfl | rfl <;> exact ⟨rfl, by decide, by simp, by simp, by simp, rfl⟩
 
 /-! ### … through the JSON text of every node (`to_json` / `from_json` between `generate` and `incorporate`)
 
-Full statement: `pools_roundtrip` with `recode` between `generate` and `incorporateAll`, for every valid
-clash-free family whose details survive their own codec.  The unchanged code violates it for a pool named
-`"_"` (known finding `C12:pools:pool-named-single-sentinel`, `pools_roundtrip_text_counterexample`);
-`pools_roundtrip_text_partial` carries the guard `p.pid ≠ singlePoolName`. -/
+A pool named `"_"` used to be lost here (former known finding `C12:pools:pool-named-single-sentinel`); such a pool
+cannot exist any more (`reserved_name_rejected`, `PoolOk.name`), so the statement is the full one. -/
 
-/-- every per-node dictionary produced for a family (not using the reserved name) is a well-formed set -/
-theorem generated_wf (ops : DetailOps D) (ty : DType) (P : List (Pool D)) (R : NodeDelegs D)
-    (hT : ∀ p ∈ P, DetOk ops ty p.details ∧ p.pid ≠ singlePoolName)
+/-- every per-node dictionary holding entries of the family is a well-formed set -/
+theorem generated_wf (ops : DetailOps D) (ty : DType) (P : List (Pool D)) (R : NodeDelegs D) (hF : Family ops ty P)
+    (hT : ∀ p ∈ P, DetOk ops ty p.details)
     (hinv : RInv ty R) (hmem : ∀ e ∈ flat R, e ∈ allEntries ty P) : ∀ e ∈ R, WF ops e.2 := by
   intro e he
   refine ⟨?_, items_ids_distinct R hinv.keys e he⟩
@@ -387,10 +511,10 @@ theorem generated_wf (ops : DetailOps D) (ty : DType) (P : List (Pool D)) (R : N
   obtain ⟨p, hp, _, _, hty, h | h⟩ := entry_pool ty P (e.1, d) (hmem _ ((mem_flat R e.1 d).mpr ⟨e, he, rfl, hd⟩))
   · have hd' : d = defEntry ty p := (Prod.mk.inj h.2).2
     subst hd'
-    exact ⟨rfl, (hT p hp).2, (hT p hp).1⟩
+    exact ⟨rfl, (hF.ok p hp).name, hT p hp⟩
   · have hd' : d = refEntry ty p := (Prod.mk.inj h.2.2).2
     subst hd'
-    exact ⟨rfl, by simp [refEntry], rfl⟩
+    exact ⟨rfl, (hF.ok p hp).name, rfl⟩
 
 theorem recode_id (ops : DetailOps D) (ty : DType) (R : NodeDelegs D) (hty : ∀ e ∈ R, e.2.ty = ty)
     (hwf : ∀ e ∈ R, WF ops e.2) : recode ops ty R = .ok R := by
@@ -398,7 +522,7 @@ theorem recode_id (ops : DetailOps D) (ty : DType) (R : NodeDelegs D) (hty : ∀
   rw [mapM_ok_of_forall _ id R]
   · simp
   · intro e he
-    have h := delegations_roundtrip_partial ops e.2 (hwf e he)
+    have h := delegations_roundtrip ops e.2 (hwf e he)
     rw [hty e he] at h
     cases hj : encode ops e.2 with
     | error err => simp [hj, Except.bind] at h
@@ -406,40 +530,179 @@ theorem recode_id (ops : DetailOps D) (ty : DType) (R : NodeDelegs D) (hty : ∀
       simp only [hj, Except.bind] at h
       simp [hj, h, bind, Except.bind, pure, Except.pure]
 
-theorem pools_roundtrip_text_partial (ops : DetailOps D) (ty : DType) (P : List (Pool D))
-    (hF : Family ops ty P) (hN : NoClash P) (hT : ∀ p ∈ P, DetOk ops ty p.details ∧ p.pid ≠ singlePoolName) :
-    ∃ ps R Q, buildPools ty P = .ok ps ∧ generate ops ps = .ok R ∧ recode ops ty R = .ok R ∧
-      incorporateAll (emptyPools ty) R = .ok Q ∧ Q.ty = ty ∧ SamePools P Q.byId := by
-  obtain ⟨ps, R, hb, _, hg, hinv, hperm⟩ := generate_ok_of_noClash ops ty P hF hN
-  obtain ⟨Q, hi, hty, hs⟩ := incorporate_entries ops ty P R hF hinv hperm
-  have hwf := generated_wf ops ty P R hT hinv (fun e he => hperm.mem_iff.mp he)
-  exact ⟨ps, R, Q, hb, hg, recode_id ops ty R hinv.ty_ hwf, hi, hty, hs⟩
+/-- **pools → per-node delegations → text → delegations → pools, the nodes read in any order**: for every valid
+clash-free family whose details survive their own codec, every node's dictionary decodes from its text to itself and
+incorporating the decoded dictionaries in any order of the nodes reconstructs the same pools -/
+theorem pools_roundtrip_text (ops : DetailOps D) (ty : DType) (P : List (Pool D))
+    (hF : Family ops ty P) (hN : NoClash P) (hT : ∀ p ∈ P, DetOk ops ty p.details) :
+    ∃ ps R, buildPools ty P = .ok ps ∧ generate ops ps = .ok R ∧
+      ∀ R', R'.Perm R → recode ops ty R' = .ok R' ∧
+        ∃ Q, incorporateAll (emptyPools ty) R' = .ok Q ∧ Q.ty = ty ∧ SamePools P Q.byId := by
+  obtain ⟨ps, R, hb, hg, hinv, hperm, hall⟩ := pools_roundtrip_any_order ops ty P hF hN
+  refine ⟨ps, R, hb, hg, fun R' hR' => ⟨?_, hall R' hR'⟩⟩
+  have hinv' := rinv_perm ty hR' hinv
+  have hwf := generated_wf ops ty P R' hF hT hinv' (fun e he => ((flat_perm hR').trans hperm).mem_iff.mp he)
+  exact recode_id ops ty R' hinv'.ty_ hwf
 
 /-- non-vacuity of the extra hypothesis -/
-example : ∀ p ∈ poolsEx, DetOk detOps .lab p.details ∧ p.pid ≠ singlePoolName := by
+example : ∀ p ∈ poolsEx, DetOk detOps .lab p.details := by
   intro p hp
   simp only [poolsEx, List.mem_cons, List.not_mem_nil, or_false] at hp
-  rcases hp with rfl | rfl <;> exact ⟨det_roundtrip.2, by decide⟩
+  rcases hp with rfl | rfl <;> exact det_roundtrip.2
 
+/-- the former counterexample (corpus/C12/pool_family_underscore.json): the family with a pool named `"_"` is refused
+by `add_pool` (and `Pool(...)`) instead of being lost on the way through the text -/
 def famU : List (Pool Det) :=
   [{ ty := .cap, pid := singlePoolName, deleg := some "del1", on_ := some "node1", for_ := ["node2"], details := some capEx }]
-def famUBack : Pools Det :=
-  { ty := .cap, index := none,
-    byId := [{ ty := .cap, pid := singlePoolName, deleg := some "del1", on_ := none, for_ := ["node2"], details := none }] }
+example : buildPools .cap famU = .error .pool := rfl
 
-/-- a pool named `"_"` is not read back: its definition decodes as a single-resource delegation, which
-`incorporate_delegation` ignores, so only the reference survives (replayed on the implementation by
-corpus/C12/pool_family_underscore.json) -/
-theorem pools_roundtrip_text_counterexample :
-    (Family detOps .cap famU ∧ NoClash famU) ∧
-    (do let ps ← buildPools .cap famU
-        let R ← generate detOps ps
-        let R' ← recode detOps .cap R
-        incorporateAll (emptyPools .cap) R') = .ok famUBack := by
-  refine ⟨⟨⟨?_, by unfold Distinct; decide⟩, by decide⟩, rfl⟩
-  intro p hp
-  simp only [famU, List.mem_cons, List.not_mem_nil, or_false] at hp
-  subst hp
-  exact ⟨rfl, by simp, by simp, by simp, rfl⟩
+/-! ## Real details: `Capacities` / `Labels` as modelled and proved lossless by C03
+
+`cOps valid` is the C03 codec on the regenerated class specifications (`valid` = the label validators, abstract).
+`RealDetails valid ty x`: `x` is an instance of the class of `ty`, every field at its default or at a value of the
+documented domain accepted by `valid` (C03's `WellTyped`), not all fields at their default. -/
+
+/-- a delegation set of the property's quantifier, with real details -/
+def RealSet (valid : String → CVal → Bool) (ds : Delegations CDet) : Prop :=
+  (∀ d ∈ ds.items, d.ty = ds.ty ∧
+    match d.fmt with
+    | .single => d.pool = none ∧ ∃ x, d.details = some x ∧ RealDetails valid ds.ty x
+    | .definition => (match d.pool with | none => False | some p => p ≠ singlePoolName) ∧
+        ∃ x, d.details = some x ∧ RealDetails valid ds.ty x
+    | .reference => (match d.pool with | none => False | some p => p ≠ singlePoolName) ∧ d.details = none) ∧
+  ds.items.Pairwise (fun a b => a.id ≠ b.id)
+
+theorem realSet_wf (valid : String → CVal → Bool) (ds : Delegations CDet) (h : RealSet valid ds) : WF (cOps valid) ds := by
+  refine ⟨fun d hd => ?_, h.2⟩
+  obtain ⟨hty, hm⟩ := h.1 d hd
+  refine ⟨hty, ?_⟩
+  cases hf : d.fmt <;> simp only [hf] at hm ⊢
+  · obtain ⟨hp, x, hx, hr⟩ := hm
+    exact ⟨hp, by rw [hx]; exact detOk_real valid ds.ty x hr⟩
+  · exact hm
+  · obtain ⟨hp, x, hx, hr⟩ := hm
+    exact ⟨hp, by rw [hx]; exact detOk_real valid ds.ty x hr⟩
+
+/-- **the codec clause for real details, no hypothesis about the details' own codec**: every set of single-resource
+delegations, pool definitions and pool references with distinct ids whose details are real `Capacities` / `Labels`
+values decodes from its encoding to exactly itself -/
+theorem delegations_roundtrip_real (valid : String → CVal → Bool) (ds : Delegations CDet) (h : RealSet valid ds) :
+    (encode (cOps valid) ds).bind (decode (cOps valid) ds.ty) = .ok ds :=
+  delegations_roundtrip (cOps valid) ds (realSet_wf valid ds h)
+
+/-- real details survive their codec in the sense of `Complete` -/
+theorem survives_real (valid : String → CVal → Bool) (ty : DType) (x : CDet) (h : RealDetails valid ty x) :
+    Survives (cOps valid) x := by
+  obtain ⟨hk, hj⟩ := detOk_real valid ty x h
+  unfold Survives
+  cases hd : (cOps valid).toDict x with
+  | none => simp [hd] at hj
+  | some j =>
+    simp only [hd] at hj ⊢
+    have : (cOps valid).kindOf x = ty := hk
+    rw [this]; exact hj
+
+/-- **the codec clause over all API histories, for real details**: whatever `add_delegations` calls were made with
+constructed delegations, if every single-resource delegation / definition had real `Capacities` / `Labels` details set
+(and no single-resource delegation a pool name) the container decodes from its encoding to itself -/
+theorem delegations_roundtrip_api_real (valid : String → CVal → Bool) (ty : DType) (ds : Delegations CDet)
+    (hr : Reachable ty ds) (hb : ∀ d ∈ ds.items, Built (cOps valid) d)
+    (hc : ∀ d ∈ ds.items, (d.fmt ≠ .reference → ∃ x, d.details = some x ∧ RealDetails valid ty x) ∧ (d.fmt = .single → d.pool = none)) :
+    (encode (cOps valid) ds).bind (decode (cOps valid) ty) = .ok ds :=
+  delegations_roundtrip_api (cOps valid) ty ds hr hb (fun d hd =>
+    ⟨fun hf => let ⟨x, hx, hr⟩ := (hc d hd).1 hf; ⟨x, hx, survives_real valid ty x hr⟩, (hc d hd).2⟩)
+
+/-- a family of pools of the property's quantifier, with real details -/
+structure RealFamily (valid : String → CVal → Bool) (ty : DType) (P : List (Pool CDet)) : Prop where
+  family : Family (cOps valid) ty P
+  details : ∀ p ∈ P, ∃ x, p.details = some x ∧ RealDetails valid ty x
+
+/-- **the pools clause for real details, through the text, any order of nodes, no codec hypothesis** -/
+theorem pools_roundtrip_text_real (valid : String → CVal → Bool) (ty : DType) (P : List (Pool CDet))
+    (hF : RealFamily valid ty P) (hN : NoClash P) :
+    ∃ ps R, buildPools ty P = .ok ps ∧ generate (cOps valid) ps = .ok R ∧ RInv ty R ∧ (flat R).Perm (allEntries ty P) ∧
+      ∀ R', R'.Perm R → recode (cOps valid) ty R' = .ok R' ∧
+        ∃ Q, incorporateAll (emptyPools ty) R' = .ok Q ∧ Q.ty = ty ∧ SamePools P Q.byId := by
+  obtain ⟨ps, R, hb, hg, hinv, hperm, _⟩ := pools_roundtrip_any_order (cOps valid) ty P hF.family hN
+  have hT : ∀ p ∈ P, DetOk (cOps valid) ty p.details := by
+    intro p hp
+    obtain ⟨x, hx, hr⟩ := hF.details p hp
+    rw [hx]; exact detOk_real valid ty x hr
+  obtain ⟨ps', R2, hb', hg', hall⟩ := pools_roundtrip_text (cOps valid) ty P hF.family hN hT
+  rw [hb] at hb'; injection hb' with hb'; subst hb'
+  rw [hg] at hg'; injection hg' with hg'; subst hg'
+  exact ⟨ps, R, hb, hg, hinv, hperm, hall⟩
+
+/-! non-vacuity of the `_real` theorems: `Capacities(core=2, ram=8)`, `Labels(vlan_range='1-100')` as C03 values -/
+
+def capReal : CDet := ⟨.cap, Codec.setF (Codec.setF (Codec.defaults Gen.Fields.capacities) "core" (.int 2)) "ram" (.int 8)⟩
+def labReal : CDet := ⟨.lab, Codec.setF (Codec.defaults Gen.Fields.labels) "vlan_range" (.str "1-100")⟩
+
+theorem capReal_real (valid : String → CVal → Bool) : RealDetails valid .cap capReal := by
+  refine ⟨rfl, ⟨?_, ?_⟩, ?_⟩
+  · have : ∀ f ∈ Gen.Fields.capacities.fields,
+        (capReal.fields f.name = f.dflt ∧ Codec.dropped Gen.Fields.capacities.drop f.dflt f.dflt = true) ∨
+        Codec.inDomain Gen.Fields.capacities.guard (capReal.fields f.name) = true := by decide
+    intro f hf
+    rcases this f hf with h | h
+    · exact Or.inl h
+    · exact Or.inr ⟨h, rfl⟩
+  · intro k hk
+    have h1 : k ≠ "core" := fun h => hk (by rw [h]; decide)
+    have h2 : k ≠ "ram" := fun h => hk (by rw [h]; decide)
+    simp only [capReal, Codec.setF, h1, h2, if_false]
+    exact Codec.dfltOf_not_mem _ k hk
+  · intro h
+    have := congrFun h "core"
+    revert this; decide
+
+theorem labReal_real (valid : String → CVal → Bool) (hv : valid "vlan_range" (.str "1-100") = true) :
+    RealDetails valid .lab labReal := by
+  refine ⟨rfl, ⟨?_, ?_⟩, ?_⟩
+  · have : ∀ f ∈ Gen.Fields.labels.fields,
+        (labReal.fields f.name = f.dflt ∧ Codec.dropped Gen.Fields.labels.drop f.dflt f.dflt = true) ∨
+        (f.name = "vlan_range" ∧ Codec.inDomain Gen.Fields.labels.guard (labReal.fields f.name) = true) := by decide
+    intro f hf
+    rcases this f hf with h | ⟨hn, h⟩
+    · exact Or.inl h
+    · refine Or.inr ⟨h, ?_⟩
+      show valid f.name (labReal.fields f.name) = true
+      rw [hn]; exact hv
+  · intro k hk
+    have h1 : k ≠ "vlan_range" := fun h => hk (by rw [h]; decide)
+    simp only [labReal, Codec.setF, h1, if_false]
+    exact Codec.dfltOf_not_mem _ k hk
+  · intro h
+    have := congrFun h "vlan_range"
+    revert this; decide
+
+/-- non-vacuity of `delegations_roundtrip_real`: the three-entry set of `delegation_label_test` -/
+example (valid : String → CVal → Bool) : RealSet valid
+    { ty := .cap, items := [
+      { ty := .cap, id := "del1", fmt := .single, pool := none, details := some capReal },
+      { ty := .cap, id := "del2", fmt := .definition, pool := some "pool1", details := some capReal },
+      { ty := .cap, id := "del3", fmt := .reference, pool := some "pool1", details := none }] } := by
+  refine ⟨?_, by decide⟩
+  intro d hd
+  simp only [List.mem_cons, List.not_mem_nil, or_false] at hd
+  rcases hd with rfl | rfl | rfl
+  · exact ⟨rfl, rfl, capReal, rfl, capReal_real valid⟩
+  · exact ⟨rfl, by decide, capReal, rfl, capReal_real valid⟩
+  · exact ⟨rfl, by decide, rfl⟩
+
+/-- non-vacuity of `pools_roundtrip_text_real`: the two-pool family of `testPools` -/
+example (valid : String → CVal → Bool) (hv : valid "vlan_range" (.str "1-100") = true) :
+    let P : List (Pool CDet) := [
+      { ty := .lab, pid := "pool1", deleg := some "del1", on_ := some "node1", for_ := ["node2", "node3"], details := some labReal },
+      { ty := .lab, pid := "pool2", deleg := some "del2", on_ := some "node2", for_ := ["node1", "node3"], details := some labReal }]
+    RealFamily valid .lab P ∧ NoClash P := by
+  intro P
+  refine ⟨⟨⟨?_, by unfold Distinct; decide⟩, ?_⟩, by decide⟩
+  · intro p hp
+    simp only [P, List.mem_cons, List.not_mem_nil, or_false] at hp
+    rcases hp with rfl | rfl <;> exact ⟨rfl, by decide, by simp, by simp, by simp, rfl⟩
+  · intro p hp
+    simp only [P, List.mem_cons, List.not_mem_nil, or_false] at hp
+    rcases hp with rfl | rfl <;> exact ⟨labReal, rfl, labReal_real valid hv⟩
 
 end FimVerif.C12
